@@ -60,6 +60,11 @@ class RecordImpl:
             value = torch.zeros(self.shape, dtype=DT[dty])
             if self.param:
                 value = nn.Parameter(value, requires_grad=False)
+        # the caller's initial tensor stays the caller's: a plain tensor handed to create() is never written to later
+        # (a record of size 1 built from a view of it would alias it - seeded C01-m13)
+        self._given = value if (isinstance(value, torch.Tensor) and not isinstance(value, nn.Parameter)
+                                and not isinstance(value, nn.UninitializedBuffer) and value.numel()) else None
+        self._given_copy = None if self._given is None else self._given.clone()
         self.owner = Module()
         # duration as given by the header (float seconds): dur_s lets callers choose a
         # value whose quotient by dt is robust to rounding
@@ -108,9 +113,12 @@ class RecordImpl:
     # ---- operations
     def apply(self, o: dict) -> dict:
         try:
-            return self._apply(o)
+            ret = self._apply(o)
         except (RuntimeError, ValueError, TypeError, IndexError, AttributeError, AssertionError) as e:
             return {"t": "err", "e": type(e).__name__}
+        if self._given is not None and not torch.equal(self._given, self._given_copy):
+            return {"t": "err", "e": "CallerTensorModified"}
+        return ret
 
     def _obs(self, v, d):
         shape = self.cur_shape() if len(v) == math.prod(self.cur_shape() or (1,)) else (len(v),)
